@@ -304,8 +304,31 @@ def _algos(ttb):
         from pyttb.gcp.fg_setup import Objectives
         return ttb.gcp_opt(X, 2, Objectives.GAUSSIAN, LBFGSB(maxiter=2), init=init, printitn=0)
 
-    return dict(cp_als=cp_als, cp_als_optdims=cp_als_opt, cp_apr_mu=cp_apr("mu"), cp_apr_pdnr=cp_apr("pdnr"),
-                cp_apr_pqnr=cp_apr("pqnr"), tucker_als=tucker, hosvd=hosvd, gcp_opt=gcp)
+    def gcp_stoch(opt, rate, max_fails, direct=False):
+        # stochastic solvers, with rates from cautious to far too large (the first epochs then fail and are rolled back)
+        def f(X, init):
+            from pyttb.gcp import optimizers
+            from pyttb.gcp.fg_setup import Objectives
+            solver = getattr(optimizers, opt)(rate=rate, epoch_iters=3, max_iters=3, max_fails=max_fails, printitn=0)
+            if direct:
+                # the solver's own entry point, as gcp_opt calls it
+                from pyttb.gcp import samplers
+                from pyttb.gcp.handles import gaussian, gaussian_grad
+                return solver.solve(init, X, gaussian, gaussian_grad, sampler=samplers.GCPSampler(X, function_samples=20, gradient_samples=10))
+            return ttb.gcp_opt(X, 2, Objectives.GAUSSIAN, solver, init=init, printitn=0)
+        return f
+
+    out = dict(cp_als=cp_als, cp_als_optdims=cp_als_opt, cp_apr_mu=cp_apr("mu"), cp_apr_pdnr=cp_apr("pdnr"),
+               cp_apr_pqnr=cp_apr("pqnr"), tucker_als=tucker, hosvd=hosvd, gcp_opt=gcp)
+    for opt in ("SGD", "Adam", "Adagrad"):
+        for rate in (1e-3, 0.5, 50.0):
+            for mf in (0, 1):
+                out[f"gcp_{opt}_rate{rate}_fails{mf}"] = gcp_stoch(opt, rate, mf)
+                out[f"solve_{opt}_rate{rate}_fails{mf}"] = gcp_stoch(opt, rate, mf, direct=True)
+    return out
+
+
+STOCH_ALGS = [f"{pre}_{opt}_rate{rate}_fails{mf}" for pre in ("gcp", "solve") for opt in ("SGD", "Adam", "Adagrad") for rate in (1e-3, 0.5, 50.0) for mf in (0, 1)]
 
 
 @check("c05.algorithms", ["C05", "C09", "C10", "C11"], [
@@ -322,6 +345,11 @@ class _:
                 for guess in ("plain", "zero-row"):
                     for seed in range(1 if tier == "quick" else 3):
                         yield dict(alg=alg, data=data, guess=guess, seed=seed)
+        for alg in STOCH_ALGS:
+            for data in ("dense", "sparse"):
+                for guess in ("plain", "near-optimal"):
+                    for seed in range(1 if tier == "quick" else 3):
+                        yield dict(alg=alg, data=data, guess=guess, seed=seed)
 
     def run(self, case):
         ttb = import_pyttb()
@@ -336,6 +364,10 @@ class _:
         if case["guess"] == "zero-row":
             U[0][0, :] = 0.0
         init = ttb.ktensor([u.copy() for u in U], np.array([1.0, 1.0]))
+        if case["guess"] == "near-optimal":
+            # the data are (almost) the model of the guess: any sizeable step makes the estimate worse
+            Xm = np.einsum("ar,br,cr->abc", *U)
+            data = ttb.tensor(Xm.copy()) if case["data"] == "dense" else ttb.tensor(np.where(Xm > np.median(Xm), Xm, 0.0)).to_sptensor()
         objs = dict(data=data, init=init)
         if case["alg"] == "tucker_als":
             objs["init"] = [u.copy() for u in U]
